@@ -39,6 +39,9 @@ pub enum Op {
     /// (literal body with `\u{..}` escapes, the text it denotes) — non-ASCII content from ASCII source, Basic only
     ParseTextEscaped(String, String),
     ParseBytes(String),
+    /// parse_add_char / parse_add_byte of a one-character (ASCII) literal
+    ParseChar(char),
+    ParseByte(char),
     /// start_list / add_to_list* / end_list; `keyed` wraps each item in a pair keyed by a distinct symbol
     MakeList(Vec<usize>, bool),
     /// a list whose items are plain (None) or wrapped in a pair keyed by the given raw symbol value, in
@@ -106,6 +109,9 @@ struct Model {
     custom: usize,
     /// Simple: interned constants (content → address)
     interned: BTreeMap<Val, usize>,
+    /// what the concatenation iterator gave (as structural values) the first time an address was read back:
+    /// it must give the same ever after
+    concat_views: std::cell::RefCell<BTreeMap<usize, Option<Vec<Val>>>>,
 }
 
 impl Model {
@@ -229,6 +235,8 @@ fn apply<D: SimData>(d: &mut D, m: &mut Model, op: &Op, out: &mut Outcome) -> Ap
             }
             added!(tryq!(d.parse_add_char_list(&format!("\"{}\"", src)), "parse_add_char_list"), Val::Text(expect.clone()))
         }
+        Op::ParseChar(c) => added!(tryq!(d.parse_add_char(&format!("\"{}\"", c)), "parse_add_char"), Val::Char(*c)),
+        Op::ParseByte(c) => added!(tryq!(d.parse_add_byte(&format!("'{}'", c)), "parse_add_byte"), Val::Byte(*c as u8)),
         Op::ParseBytes(t) => added!(tryq!(d.parse_add_byte_list(&format!("'{}'", t)), "parse_add_byte_list"), Val::Bytes(t.as_bytes().to_vec())),
         Op::MakeList(sels, keyed) => {
             let mut items: Vec<usize> = vec![];
@@ -522,6 +530,60 @@ fn check_all<D: SimData>(d: &D, m: &Model, sample: Option<(usize, usize)>) -> Op
                     return Some(("C15.readback.byte-iter".into(), format!("address {} iterates {:?} expected {:?}", addr, via, b)));
                 }
             }
+            Val::SymList(parts) => {
+                let via: Option<Vec<SymPart>> = d.get_symbol_list_iter(addr, garnish_lang_traits::Extents::new(SimpleNumber::Integer(0), SimpleNumber::Integer(i32::MAX))).ok().map(|it| {
+                    it.map(|p| match p {
+                        garnish_lang_traits::SymbolListPart::Symbol(c) => SymPart::Sym(c),
+                        garnish_lang_traits::SymbolListPart::Number(SimpleNumber::Integer(n)) => SymPart::Int(n),
+                        garnish_lang_traits::SymbolListPart::Number(SimpleNumber::Float(n)) => SymPart::Float(n.to_bits()),
+                    })
+                    .collect()
+                });
+                if via.as_ref() != Some(parts) {
+                    return Some(("C15.readback.symbol-list-iter".into(), format!("address {} iterates {:?} expected {:?}", addr, via, parts)));
+                }
+            }
+            Val::Concat(_, _) => {
+                let via: Option<Vec<Val>> = d
+                    .get_concatenation_iter(addr, garnish_lang_traits::Extents::new(SimpleNumber::Integer(0), SimpleNumber::Integer(i32::MAX)))
+                    .ok()
+                    .map(|it| it.map(|a| read_val(d, a)).collect());
+                // without slices inside, the items are the leaves in order, lists spread out
+                fn flat(v: &Val, out: &mut Vec<Val>) -> bool {
+                    match v {
+                        Val::Concat(l, r) => flat(l, out) && flat(r, out),
+                        Val::List(items) => {
+                            out.extend(items.iter().cloned());
+                            true
+                        }
+                        Val::Slice(_, _) => false,
+                        other => {
+                            out.push(other.clone());
+                            true
+                        }
+                    }
+                }
+                let mut expect = vec![];
+                if flat(want, &mut expect) && via.as_ref() != Some(&expect) {
+                    return Some(("C15.readback.concatenation-items".into(), format!("address {} iterates {:?} item(s), expected the {} leaves of {}", addr, via.as_ref().map(|v| v.len()), expect.len(), want.short())));
+                }
+                // the iterator may refuse an ill-formed operand (a slice whose range is not made of numbers): what it
+                // gives — items or a refusal — must not change while the store grows
+                let mut views = m.concat_views.borrow_mut();
+                match views.get(&addr) {
+                    None => {
+                        views.insert(addr, via);
+                    }
+                    Some(first) => {
+                        if first != &via {
+                            return Some((
+                                "C15.readback.concatenation-iter".into(),
+                                format!("address {} iterates {:?} item(s) now, {:?} when first read", addr, via.as_ref().map(|v| v.len()), first.as_ref().map(|v| v.len())),
+                            ));
+                        }
+                    }
+                }
+            }
             Val::List(items) => {
                 let via: Option<Vec<Val>> = d
                     .get_list_item_iter(addr, garnish_lang_traits::Extents::new(SimpleNumber::Integer(0), SimpleNumber::Integer(i32::MAX)))
@@ -553,6 +615,15 @@ fn check_all<D: SimData>(d: &D, m: &Model, sample: Option<(usize, usize)>) -> Op
             }
             _ => {}
         }
+    }
+    // index iterators of the tables
+    let di: Vec<usize> = d.get_data_iter().collect();
+    if di != (0..d.get_data_len()).collect::<Vec<_>>() {
+        return Some(("C15.table.data-iter".into(), format!("data iterator gives {} indices, data length {}", di.len(), d.get_data_len())));
+    }
+    let ii: Vec<usize> = d.get_instruction_iter().collect();
+    if ii != (0..m.instrs.len()).collect::<Vec<_>>() {
+        return Some(("C15.table.instruction-iter".into(), format!("instruction iterator gives {} indices, model {}", ii.len(), m.instrs.len())));
     }
     // instruction table
     if d.get_instruction_len() != m.instrs.len() {
@@ -720,6 +791,8 @@ fn gen_op(rng: &mut Rng, basic: bool) -> Op {
         3 => Op::AddInt(if rng.chance(1, 12) { *rng.pick(&[i32::MIN, i32::MIN + 1, i32::MAX, i32::MAX - 1, -1]) } else { rng.range_i(-3, 40) as i32 }),
         4 => Op::AddFloat((rng.below(40) as f64 / 8.0).to_bits()),
         5 => Op::AddType(rng.range(1, 20) as u8),
+        6 if rng.chance(1, 4) => Op::ParseChar(*rng.pick(&['a', 'Z', '0', ' ', '~'])),
+        7 if rng.chance(1, 4) => Op::ParseByte(*rng.pick(&['a', 'Z', '0', ' ', '~'])),
         6 => Op::AddChar(*rng.pick(&['a', 'b', 'z', 'é', '\0', '\u{10FFFF}', '\u{7f}', '\u{80}'])),
         7 => Op::AddByte(if rng.chance(1, 6) { *rng.pick(&[255u8, 254, 128, 127]) } else { rng.below(5) as u8 }),
         8 => Op::AddSymbol(if rng.chance(1, 5) {
